@@ -94,3 +94,22 @@ From XcpPins Require Import Pin_operations_tree_walker.
 Theorem C13_src_pin_operations_tree_walker : pin_unchanged name_operations_tree_walker.
 Proof. exact pin_operations_tree_walker. Qed.
 Print Assumptions C13_src_pin_operations_tree_walker.
+
+(* ---- further functions on this property's path, pinned token for token as validated (dependency review after rounds 5 and 6:
+   each missed change had edited a pinned function that this property did not cite) ---- *)
+From XcpPins Require Import Pin_operations_new Pin_parfile_copy_worker Pin_parblock_dispatch_worker Pin_main_expand_globs Pin_operations_copy_file.
+Theorem C13_src_pin_operations_new : pin_unchanged name_operations_new.
+Proof. exact pin_operations_new. Qed.
+Theorem C13_src_pin_parfile_copy_worker : pin_unchanged name_parfile_copy_worker.
+Proof. exact pin_parfile_copy_worker. Qed.
+Theorem C13_src_pin_parblock_dispatch_worker : pin_unchanged name_parblock_dispatch_worker.
+Proof. exact pin_parblock_dispatch_worker. Qed.
+Theorem C13_src_pin_main_expand_globs : pin_unchanged name_main_expand_globs.
+Proof. exact pin_main_expand_globs. Qed.
+Theorem C13_src_pin_operations_copy_file : pin_unchanged name_operations_copy_file.
+Proof. exact pin_operations_copy_file. Qed.
+Print Assumptions C13_src_pin_operations_new.
+Print Assumptions C13_src_pin_parfile_copy_worker.
+Print Assumptions C13_src_pin_parblock_dispatch_worker.
+Print Assumptions C13_src_pin_main_expand_globs.
+Print Assumptions C13_src_pin_operations_copy_file.
